@@ -4,19 +4,19 @@ import sys, os, shutil, json, re
 pid, k, needs, caught = sys.argv[1:5]
 note = sys.argv[5] if len(sys.argv) > 5 else ""
 src = "/tmp/seed-%s/SEED/%s" % (pid, k)
-dst = "/verif/seeded/%s-%s" % (pid, k)
+dst = "/verif/seeded/%s-%s" % (pid, int(k) + int(os.environ.get("SEED_OFFSET", "0")))
 os.makedirs(dst, exist_ok=True)
 for f in ("patch.diff", "demo_test.go", "README.md"):
     if os.path.exists(os.path.join(src, f)):
         shutil.copy(os.path.join(src, f), dst)
 log = open(os.path.join(src, "confirm.log"), errors="replace").read() if os.path.exists(os.path.join(src, "confirm.log")) else ""
 meta = {
- "property": pid, "seed": int(k),
+ "property": pid, "seed": int(k) + int(os.environ.get("SEED_OFFSET", "0")), "round": 2 if os.environ.get("SEED_OFFSET") else 1,
  "needs_to_manifest": needs,
  "confirmed": {
    "how": "bin/confirm_seed.sh in scratch worktree /tmp/seed-%s (removed afterwards): git apply --check; demo (copied into internal/proxy) passes on HEAD and FAILS with the patch; go build ./... ok; unedited suite `go test -vet=off -count=1 ./...` with the patch: all packages ok except internal/proxy TestRoundTrip(/no_error), which is in BASELINE.always_fail (needs DNS)" % pid,
    "demo_without_patch": "ok", "demo_with_patch": "FAIL", "build": "ok", "suite_with_patch": "baseline-equivalent"},
- "checks_run": "bin/mutate.sh %s seeded/%s-%s/patch.diff  (scratch copy of /repo + git apply + VERIF_REPO=<copy> ./check %s quick)" % (pid, pid, k, pid),
+ "base_commit": os.environ.get("SEED_BASE", "c7779ce"), "checks_run": "bin/mutate.sh %s seeded/%s-%s/patch.diff  (scratch copy of /repo + git apply + VERIF_REPO=<copy> ./check %s quick)" % (pid, pid, k, pid),
  "caught_by": caught, "note": note,
 }
 json.dump(meta, open(os.path.join(dst, "meta.json"), "w"), indent=1)
